@@ -198,7 +198,10 @@ def rand_tree(rng, depth=0):
 # so every hint only ever receives values its class stores unchanged)
 NONE_ONLY = ("challenge", "bytes", "filename", "float", "include-none", "include-dir")   # option-carrying classes, value stays None
 LEAF_HINTS = ["int", "str", "int", "bare", "intb", "strn", "secure-best", "secure-xor", "secure-aes", "port", "bool", "url",
-              "challenge", "bytes", "filename", "float", "include-none", "include-dir"]
+              "challenge", "bytes", "filename", "float", "include-none", "include-dir", "choice", "loglevel", "appmode"]
+CHOICES = {"choice": ["b", "c", "a"], "loglevel": ["debug", "info", "warning", "error", "critical"], "appmode": ["prod", "dev", "test"]}
+# a value the leaf's own validation rejects (the model's FAny has no validation: such operations are no-ops there)
+REJECT = {"choice": "zz", "loglevel": "zz", "appmode": "zz", "intb": 1000, "port": 0, "strn": "ZZ9"}
 _CASE_DIR = [None]        # per-case temp dir (include files, startdir of include-dir fields); set and removed by impl()
 
 
@@ -209,6 +212,8 @@ def leaf_value(rng, hint):
         return rng.randint(1, 9)
     if hint in ("str", "strn") or hint.startswith("secure"):
         return rng.choice(["s", "t", "uv"])
+    if hint in CHOICES:
+        return rng.choice(CHOICES[hint])
     if hint == "bool":
         return rng.random() < 0.5
     if hint == "url":
@@ -267,8 +272,10 @@ def gen_leaf(rng, hint=None):
 def gen_item(rng, subs, depth):
     """item / value field of a typed container (its own default is never used)"""
     r = rng.random()
+    if r < 0.12:
+        return ("any", None, "int", "shared1")       # ONE IntField object used as the item field of several lists / dicts
     if r < 0.3:
-        return ("any", None, rng.choice(["int", "str"]))
+        return ("any", None, rng.choice(["int", "str", "choice"]))
     if r < 0.45:
         return ("dict", None, None)
     if r < 0.6:
@@ -313,7 +320,7 @@ def gen_field(rng, subs, depth):
         return ("dict", None, gen_dflt(rng, ("dict", None, None)))
     if r < 0.85:
         vf = rng.choice([("any", None, "int"), ("list", None, None), ("list", ("any", None, "int"), None),
-                         ("dict", None, None)])
+                         ("dict", None, None), ("dict", ("any", None, "int"), None), ("list", ("any", None, "int", "shared1"), None)])
         return ("dict", vf, gen_dflt(rng, ("dict", vf, None)))
     if r < 0.93 and depth < 2:
         return gen_sub(rng, subs, depth)
@@ -344,6 +351,10 @@ def gen_op(rng, spec, sh):
             bad = bad_op(rng, path, sp)
             if bad is not None:
                 return bad
+        rej = [(n, f) for n, f in sp[2] if f[0] == "any" and f[2] in REJECT]
+        if rej and rng.random() < 0.1:
+            n, f = rng.choice(rej)
+            return ("badleaf", path, n, REJECT[f[2]], rng.choice(["set", "load", "loads"]))
         if path == [] and rng.random() < 0.15:
             inc = gen_incload(rng, spec)
             if inc is not None:
@@ -368,11 +379,15 @@ def gen_op(rng, spec, sh):
     if kind == "list":
         cur = sh_nav(sh, path)
         n = len(cur) if isinstance(cur, list) else 0
+        if sp is not None and sp[0] == "any" and sp[2] in REJECT and rng.random() < 0.15:
+            return ("badleaf", path, None, REJECT[sp[2]], "append")
         if sp is not None and sp[0] == "sub" and rng.random() < 0.07:
             return ("badappend", path, rng.choice([5, "s", [1], None]))      # not a configuration: ValueError
         if rng.random() < 0.6 or n == 0:
             return ("append", path, gen_value(rng, sp))
         return ("setitem", path, rng.randint(0, n if rng.random() < 0.1 else n - 1), gen_value(rng, sp))
+    if sp is not None and sp[0] == "any" and sp[2] in REJECT and rng.random() < 0.15:
+        return ("badleaf", path, "k", REJECT[sp[2]], "dset")
     return ("dset", path, rng.choice(KEYS), gen_value(rng, sp))
 
 
@@ -532,12 +547,59 @@ def gen_cross(rng, spec, shadows, i):
     return ("cross", i, j, path, n)
 
 
+def gen_cross_field(rng, spec, shadows, i):
+    """cfg_i<p>.k = cfg_j<ps>.ks between two DIFFERENT list / dict fields that use the same item field object / item
+    schema / config type: same configuration (any shared item type) or another one (scalar items only)"""
+    out = []
+    targets(shadows[i], spec, [], out)
+    fields = []
+    for path, kind, sp in out:
+        if kind == "cfg" and not any(s_[0] == "i" for s_ in path):
+            for n, f in sp[2]:
+                if f[0] in ("list", "dict") and f[1] is not None and (f[1][0] == "sub" or (f[1][0] == "any" and len(f[1]) > 3)):
+                    fields.append((path, n, f))
+    pairs = [(a, b) for a in fields for b in fields if a is not b and a[2][0] == b[2][0] and a[2][1] == b[2][1]]
+    if not pairs:
+        return None
+    (path, n, f), (spath, sn, _f) = rng.choice(pairs)
+    j = i
+    if f[1][0] == "any" and len(shadows) > 1 and rng.random() < 0.5:
+        j = rng.choice([x for x in range(len(shadows)) if x != i])
+    return ("cross", i, j, path, n, spath, sn)
+
+
+def gen_xupdate(rng, spec, shadows, i):
+    """cfg_i<p>.k.update(cfg_j<p>.k) / |= for a typed dict whose values are scalars or typed containers of scalars"""
+    others = [j for j in range(len(shadows)) if j != i]
+    if not others:
+        return None
+    j = rng.choice(others)
+    out = []
+    targets(shadows[i], spec, [], out)
+    cands = []
+    for path, kind, sp in out:
+        if kind == "cfg" and isinstance(sh_nav(shadows[j], path), CfgS):
+            for n, f in sp[2]:
+                if f[0] == "dict" and f[1] is not None and (f[1][0] == "any" or scalar_item(f[1])) \
+                        and isinstance(sh_nav(shadows[i], path + [("a", n)]), dict) and isinstance(sh_nav(shadows[j], path + [("a", n)]), dict):
+                    cands.append((path, n))
+    if not cands:
+        return None
+    path, n = rng.choice(cands)
+    return ("xupdate", i, j, path, n, rng.choice(["update", "ior"]))
+
+
 def sh_cross(shadows, spec, e):
-    _, i, j, path, n = e
-    src = sh_nav(shadows[j], path)
+    i, j, path, n = e[1:5]
+    spath, sn = (e[5], e[6]) if (e[0] == "cross" and len(e) > 5) else (path, n)
+    src = sh_nav(shadows[j], spath)
     dst = sh_nav(shadows[i], path)
-    if isinstance(src, CfgS) and isinstance(dst, CfgS) and n in src:
-        dst[n] = copy.deepcopy(src[n])
+    if isinstance(src, CfgS) and isinstance(dst, CfgS) and sn in src:
+        if e[0] == "xupdate":
+            if isinstance(dst.get(n), dict) and isinstance(src[sn], dict):
+                dst[n].update(copy.deepcopy(src[sn]))
+        else:
+            dst[n] = copy.deepcopy(src[sn])
 
 
 def gen_clone(rng, spec, shadows):
@@ -668,6 +730,61 @@ def generate(rng, tier):
         cases.append({"schema": ms, "kind": "matrix", "events": [
             ("build",), ("build",), ("op", 0, ("set", [], "x1", [1, {"a": [2]}])), ("read", 0, rk), ("read", 1, rk),
             ("op", 0, ("set", [("a", "cts"), ("i", 0)], "x2", 5)), ("read", 0, rk), ("build",)]})
+    # options with content (choices / levels / modes, bounds, pattern): a value the leaf rejects, by every route
+    os_ = ("sub", False, [
+        ("lvl", ("any", ("tree", "info"), "loglevel")), ("mode", ("any", ("tree", "dev"), "appmode")),
+        ("ch", ("any", ("tree", "b"), "choice")), ("ib", ("any", ("tree", 1), "intb")), ("po", ("any", ("tree", 8), "port")),
+        ("sn", ("any", ("tree", "s"), "strn")),
+        ("chl", ("list", ("any", None, "choice"), ("tree", ["c"]))), ("chd", ("dict", ("any", None, "choice"), ("tree", {"k": "a"}))),
+        ("sub", ("sub", False, [("ch", ("any", ("tree", "c"), "choice"))], "schema", 2))], "schema", 0)
+    lops = []
+    for n_, h_ in (("lvl", "loglevel"), ("mode", "appmode"), ("ch", "choice"), ("ib", "intb"), ("po", "port"), ("sn", "strn")):
+        for route in ("set", "load", "loads"):
+            lops.append(("badleaf", [], n_, REJECT[h_], route))
+    lops += [("badleaf", [("a", "chl")], None, "zz", "append"), ("badleaf", [("a", "chd")], "k", "zz", "dset"),
+             ("badleaf", [("a", "sub")], "ch", "zz", "set"), ("badset", [], "chl", 5)]
+    for o in lops:
+        cases.append({"schema": os_, "kind": "matrix", "events": [("build",), ("build",), ("op", 0, o), ("read", 1, "validate"),
+                                                                  ("op", 1, ("set", [], "ch", "a")), ("build",)]})
+    # several list / dict fields over ONE item schema / config type / item field object: whole-value assignment between them
+    its_ = ("sub", False, [("n", ("any", ("tree", 0), "int")), ("v", ("list", None, ("tree", [1])))], "schema", 1)
+    itc_ = ("sub", False, [("w", ("any", ("tree", 1), "int"))], "ct", 2)
+    shi_ = ("any", None, "int", "shared1")
+    ss_ = ("sub", False, [
+        ("primary", ("list", its_, ("tree", [{"n": 1}]))), ("backup", ("list", its_, None)),
+        ("c1", ("list", itc_, ("tree", [{"w": 2}]))), ("c2", ("list", itc_, ("tree", []))),
+        ("p2", ("list", shi_, ("tree", [1, 2]))), ("b2", ("list", shi_, ("tree", [3]))),
+        ("d1", ("dict", shi_, ("tree", {"k": 1}))), ("d2", ("dict", shi_, None))], "schema", 0)
+    for dst_, src_, add_ in (("backup", "primary", {"n": 7}), ("primary", "backup", {"n": 7}), ("c2", "c1", {"w": 5}), ("b2", "p2", 5), ("p2", "b2", 5)):
+        app = lambda f_: ("append", [("a", f_)], copy.deepcopy(add_))     # noqa: E731
+        if src_ == "backup":
+            pre = [("op", 0, ("set", [], "backup", [{"n": 3}]))]
+        else:
+            pre = []
+        cases.append({"schema": ss_, "kind": "matrix", "events": [("build",), ("build",)] + pre + [
+            ("cross", 0, 0, [], dst_, [], src_), ("op", 0, app(dst_)), ("op", 0, app(src_)), ("build",)]})
+        if isinstance(add_, int):
+            cases.append({"schema": ss_, "kind": "matrix", "events": [("build",), ("build",), ("cross", 1, 0, [], dst_, [], src_),
+                                                                  ("op", 1, app(dst_)), ("op", 0, app(src_)), ("cross", 0, 1, [], src_, [], dst_),
+                                                                  ("op", 0, app(src_))]})
+    cases.append({"schema": ss_, "kind": "matrix", "events": [("build",), ("build",), ("cross", 0, 0, [], "d2", [], "d1"),
+                                                          ("op", 0, ("dset", [("a", "d2")], "z", 4)), ("cross", 1, 0, [], "d1", [], "d2"),
+                                                          ("op", 1, ("dset", [("a", "d1")], "y", 5))]})
+    # update / |= between the dict proxies of one field in two configurations, values are typed containers
+    us_ = ("sub", False, [
+        ("routes", ("dict", ("list", ("any", None, "int"), None), ("call", {"web": [80]}))),
+        ("plain", ("dict", ("any", None, "int"), ("tree", {"a": 1}))),
+        ("net", ("sub", False, [("groups", ("dict", ("dict", ("any", None, "int"), None), ("tmpl", {"dmz": {"mtu": 1500}})))], "schema", 2))],
+           "schema", 0)
+    for how in ("update", "ior"):
+        cases.append({"schema": us_, "kind": "matrix", "events": [
+            ("build",), ("build",), ("op", 1, ("dset", [("a", "routes")], "api", [8080, 8081])),
+            ("xupdate", 0, 1, [], "routes", how), ("op", 0, ("append", [("a", "routes"), ("k", "api")], 9999)),
+            ("op", 1, ("append", [("a", "routes"), ("k", "web")], 1)),
+            ("op", 1, ("dset", [("a", "net"), ("a", "groups")], "lan", {"mtu": 9000})),
+            ("xupdate", 0, 1, [("a", "net")], "groups", how), ("op", 0, ("dset", [("a", "net"), ("a", "groups"), ("k", "lan")], "mtu", 1)),
+            ("op", 1, ("dset", [("a", "net"), ("a", "groups"), ("k", "dmz")], "vlan", 7)),
+            ("xupdate", 1, 0, [], "plain", how), ("build",)]})
     # document loads with includes: configuration 0 from directory a, configuration 1 from directory b (same file names,
     # other contents), relative and absolute names, root and nested include fields, startdir None and set
     ins = inc_schema()
@@ -789,7 +906,8 @@ def generate(rng, tier):
                     events.append(e)
                     continue
             if r < 0.24:
-                e = gen_cross(rng, spec, shadows, i)
+                e = gen_cross(rng, spec, shadows, i) if r < 0.18 else (
+                    gen_cross_field(rng, spec, shadows, i) if r < 0.21 else gen_xupdate(rng, spec, shadows, i))
                 if e is not None:
                     sh_cross(shadows, spec, e)
                     events.append(e)
@@ -881,10 +999,15 @@ def gcase(c):
     for n_, e in enumerate(c["events"]):
         if e[0] == "build":
             evs.append("XE EBuild")
+        elif e[0] == "op" and e[2][0] == "badleaf":
+            evs.append("XRead")          # rejected by the leaf's own validation (not modelled): nothing may change
         elif e[0] == "op":
             evs.append("XE (EOp %d%%nat %s)" % (e[1], g_op(e[2])))
         elif e[0] == "cross":
-            evs.append("XCross %d%%nat %d%%nat %s %s" % (e[1], e[2], g_path(e[3]), g_str(e[4])))
+            sp_, sn_ = (e[5], e[6]) if len(e) > 5 else (e[3], e[4])
+            evs.append("XCross %d%%nat %d%%nat %s %s %s %s" % (e[1], e[2], g_path(e[3]), g_str(e[4]), g_path(sp_), g_str(sn_)))
+        elif e[0] == "xupdate":
+            evs.append("XUpdate %d%%nat %d%%nat %s %s" % (e[1], e[2], g_path(e[3]), g_str(e[4])))
         elif e[0] == "read":
             evs.append("XRead")
         elif e[0] == "clone":
@@ -961,9 +1084,13 @@ def _mk(spec, cache):
             fn.verif_template = tmpl
             return fn
         raise Broken("default %r needs its item type" % (d,))
+    if k == "any" and len(spec) > 3 and ("leaf", spec[3]) in cache:
+        return cache[("leaf", spec[3])]
     if k == "any":
         h = spec[2]
-        mk = {"int": cc.IntField, "str": cc.StringField, "bare": cc.Field,
+        mk = {"choice": lambda **kw: cc.StringField(choices=list(CHOICES["choice"]), **kw),
+              "loglevel": lambda **kw: cc.LogLevelField(**kw),
+              "appmode": lambda **kw: cc.ApplicationModeField(modes=list(CHOICES["appmode"]), create_helpers=False, **kw),"int": cc.IntField, "str": cc.StringField, "bare": cc.Field,
               "intb": lambda **kw: cc.IntField(min=0, max=99, **kw),
               "strn": lambda **kw: cc.StringField(min_len=1, max_len=5, regex="^[a-z]+$", **kw),
               "secure-best": lambda **kw: cc.SecureField(method="best", **kw),
@@ -974,7 +1101,10 @@ def _mk(spec, cache):
               "include-none": lambda **kw: cc.IncludeField(**kw),
               "include-dir": lambda **kw: cc.IncludeField(startdir=_inc_dir(), **kw),
               "filename": lambda **kw: cc.FilenameField(exists=False, **kw), "float": lambda **kw: cc.FloatField(min=0.5, max=2.5, **kw)}[h]
-        return mk(default=dv(spec[1]))
+        fobj = mk(default=dv(spec[1]))
+        if len(spec) > 3:
+            cache[("leaf", spec[3])] = fobj
+        return fobj
     if k == "list":
         if spec[1] is None:
             return cc.ListField(default=dv(spec[2]))
@@ -1113,8 +1243,25 @@ def _options(schema):
     out = []
     seen = set()
 
+    def content(v):
+        """deep plain copy, order included, of a container-valued option"""
+        import re
+        if v is None or isinstance(v, (bool, int, float, str, bytes)):
+            return v
+        if isinstance(v, (list, tuple)):
+            return (type(v).__name__, [content(x) for x in v])
+        if isinstance(v, dict):
+            return ("dict", [(content(k), content(x)) for k, x in v.items()])
+        if isinstance(v, (set, frozenset)):
+            return ("set", sorted(repr(x) for x in v))
+        if isinstance(v, re.Pattern):
+            return ("re", v.pattern, v.flags)
+        return ("id", id(v))
+
     def scal(v):
-        return v if v is None or isinstance(v, (bool, int, str)) else ("id", id(v))
+        if v is None or isinstance(v, (bool, int, float, str, bytes)):
+            return v
+        return ("obj", id(v), content(v))      # identity AND content
 
     def visit(pf):
         sch = _schema_of(pf)
@@ -1189,6 +1336,24 @@ def _apply(cfg, o):
     tgt = _nav(cfg, o[1])
     if k == "incload":
         _incload(tgt, o)
+        return
+    if k == "leaf":                      # ("badleaf", path, key, value, route)
+        import json
+        route = o[4]
+        if route == "set":
+            setattr(tgt, o[2], o[3])
+        elif route == "load":
+            tgt.load_tree({o[2]: o[3]})
+        elif route == "loads":
+            tgt.loads(json.dumps({o[2]: o[3]}), "json")
+        elif route == "append":
+            if not isinstance(tgt, list):
+                raise LookupError("not a list")
+            tgt.append(o[3])
+        else:
+            if not isinstance(tgt, dict):
+                raise LookupError("not a dict")
+            tgt[o[2]] = o[3]
         return
     if k == "secload":
         import base64
@@ -1334,12 +1499,27 @@ def _share(x, y):
 
 def _cross(cfgs, e):
     from cincoconfig.core import Config
-    _, i, j, path, n = e
-    src = _nav(cfgs[j], path)
+    i, j, path, n = e[1:5]
+    spath, sn = (e[5], e[6]) if (e[0] == "cross" and len(e) > 5) else (path, n)
+    src = _nav(cfgs[j], spath)
     dst = _nav(cfgs[i], path)
-    if not isinstance(src, Config) or not isinstance(dst, Config) or n not in src._data:
+    if not isinstance(src, Config) or not isinstance(dst, Config) or sn not in src._data or n not in dst._data:
         raise LookupError("no such value")
-    setattr(dst, n, getattr(src, n))
+    val = getattr(src, sn)
+    if e[0] == "xupdate":
+        tgt = getattr(dst, n)
+        if not isinstance(tgt, dict) or not isinstance(val, dict):
+            raise LookupError("not a dict")
+        if e[5] == "update":
+            tgt.update(val)
+        else:
+            tgt |= val
+        return None
+    setattr(dst, n, val)
+    got = getattr(dst, n)
+    if isinstance(val, (list, dict)) and got is val and not (dst is src and n == sn):
+        return "the %s object read from %s was stored as it is (no copy)" % (type(val).__name__, "another field" if dst is src else "another configuration")
+    return None
 
 
 def impl(c):
@@ -1399,13 +1579,15 @@ def _impl(c):
             target = len(cfgs) - 1
         else:
             target = e[2] if e[0] == "clone" else e[1]
-            if target >= len(cfgs) or (e[0] in ("cross", "clone") and max(e[1], e[2]) >= len(cfgs)):
+            if target >= len(cfgs) or (e[0] in ("cross", "clone", "xupdate") and max(e[1], e[2]) >= len(cfgs)):
                 raise Broken("event addresses a configuration that does not exist")
             try:
                 if e[0] == "op":
                     _apply(cfgs[target], e[2])
-                elif e[0] == "cross":
-                    _cross(cfgs, e)
+                elif e[0] in ("cross", "xupdate"):
+                    msg_ = _cross(cfgs, e)
+                    if msg_:
+                        viol.append("event %d: %s" % (n, msg_))
                 elif e[0] == "clone":
                     if not _clone(cfgs, e):
                         skip.append(n)
@@ -1505,7 +1687,10 @@ def tags(c, obs):
     for e in c["events"]:
         if e[0] == "cross":
             seen_op = True
-            t.add("op:cross-assign")
+            t.add("op:cross-assign" if len(e) <= 5 else ("op:cross-field-same-config" if e[1] == e[2] else "op:cross-field"))
+        elif e[0] == "xupdate":
+            seen_op = True
+            t.add("op:cross-" + e[5])
         elif e[0] == "read":
             t.add("read:" + e[2])
         elif e[0] == "clone":
@@ -1514,7 +1699,9 @@ def tags(c, obs):
         elif e[0] == "op":
             seen_op = True
             t.add("op:" + e[2][0])
-            if e[2][0].startswith("bad"):
+            if e[2][0] == "badleaf":
+                t.add("rejected-leaf:" + e[2][4])
+            elif e[2][0].startswith("bad"):
                 o_ = e[2]
                 v_ = o_[3] if o_[0] == "badset" else (list(o_[2].values())[0] if o_[0] == "badload" else o_[2])
                 t.add("rejected-value:" + type(v_).__name__)
